@@ -287,6 +287,50 @@ pub fn c10(a: &Args) {
             }
         }
     }
+    // (5) characters beyond one byte reaching the parsers: UTF-8 text files (BOM) under every text extension, and `print_char`
+    //     called with the character itself for every emulation - a parser that narrows the character (u8 / u16) must not
+    //     build a cell from the narrowed value without checking it
+    {
+        use icy_engine::{BufferParser, Caret};
+        let cps: [u32; 16] = [0x7F, 0x80, 0xFF, 0x100, 0x2500, 0xD7FF, 0xE000, 0xFFFD, 0xFFFF, 0x10000, 0x1D800, 0x1DBFF, 0x1DC00, 0x2D8A5, 0x1DFFF, 0x10FFFF];
+        for ext in ["asc", "ans", "pcb", "avt", "msg", "an1", "ata", "seq", "txt", "nfo", "diz"] {
+            for &cp in &cps {
+                let Some(chr) = char::from_u32(cp) else { continue };
+                let what = format!("utf8-file:{ext}:U+{cp:X}");
+                if !u.begin(&mut out, "utf8", &what) { continue; }
+                let mut bytes = vec![0xEF, 0xBB, 0xBF];
+                bytes.extend(format!("A{chr}B\r\n{chr}").as_bytes());
+                let r = guard(|| Buffer::from_bytes(Path::new(&format!("x.{ext}")), true, &bytes));
+                match r {
+                    Ok(Ok(b)) => { let mut codes = vec![]; for l in &b.layers { codes.extend(layer_codes(l)); } codes.sort_unstable(); codes.dedup(); out.ev(&json!({"ev":"cells","src":"utf8","what":what,"r":"ok","codes":codes})); }
+                    Ok(Err(_)) => out.ev(&json!({"ev":"cells","src":"utf8","what":what,"r":"err","codes":[]})),
+                    Err(p) => out.ev(&json!({"ev":"cells","src":"utf8","what":what,"r":"panic","site":panic_site(&p),"codes":[]})),
+                }
+            }
+        }
+        for emu in crate::term::EMUS {
+            for &cp in &cps {
+                let Some(chr) = char::from_u32(cp) else { continue };
+                let what = format!("print_char:{emu}:U+{cp:X}");
+                if !u.begin(&mut out, "char", &what) { continue; }
+                let r = guard(|| {
+                    let mut buf = Buffer::create((40, 24));
+                    buf.is_terminal_buffer = true;
+                    let mut caret = Caret::default();
+                    let mut parser = crate::term::make_parser(emu, 0, false);
+                    for c in ['A', chr, 'B', '\u{1b}', chr, chr] { let _ = parser.print_char(&mut buf, 0, &mut caret, c); }
+                    let mut codes = layer_codes(&buf.layers[0]);
+                    codes.sort_unstable();
+                    codes.dedup();
+                    codes
+                });
+                match r {
+                    Ok(codes) => out.ev(&json!({"ev":"cells","src":"char","what":what,"r":"ok","codes":codes})),
+                    Err(p) => out.ev(&json!({"ev":"cells","src":"char","what":what,"r":"panic","site":panic_site(&p),"codes":[]})),
+                }
+            }
+        }
+    }
     // (4) macro bodies (DECDMAC): text and hex form, bytes >= 0x80 (stored as two-byte UTF-8 sequences), repeat groups that
     //     reach or cross the 32767-byte macro space at every alignment; the stored bodies are read through the
     //     cfg(icy_engine_verif) hook `ansi::Parser::verif_macro_bytes`
